@@ -1,4 +1,430 @@
+//! protosim: the protocol simulator for `deserr::deserialize` (engine A).
+//!
+//!   protosim check <Cxx> [--tier quick|thorough] [--scenarios N] [--max-seconds S]
+//!                        [--threads T] [--fp-log FILE] [--evidence FILE]
+//!   protosim replay <file>
+//!   protosim programs
+//!
+//! Exit status: 0 clean, 1 violation (a `VIOLATION property=<id> replay=<path>` line is
+//! printed), 2 harness error.
+
+use protosim::checks::{self, check, Env, Found, Prop, Stats};
+use protosim::history::Script;
+use protosim::minimise::minimise;
+use protosim::runner::{run, ErrParty, RunCfg, Source};
+use protosim::scenario::{self, Scenario};
+use simcore::catalogue;
+use std::collections::BTreeMap;
+use std::io::Write;
+use std::sync::atomic::{AtomicBool, AtomicU64, Ordering};
+use std::sync::Mutex;
+use std::time::Instant;
+
+fn harness_error(msg: &str) -> ! {
+    eprintln!("HARNESS-ERROR: {msg}");
+    std::process::exit(2);
+}
+
+fn build_env() -> Env {
+    let cat = catalogue::catalogue(protosim::generated::PROGRAM_SEED, protosim::generated::N_GEN);
+    let runners = protosim::generated::runners();
+    if cat.programs.len() != runners.len()
+        || cat.programs.len() != protosim::generated::N_PROGRAMS
+        || cat.types.len() != protosim::generated::N_TYPES
+    {
+        harness_error("generated catalogue source does not match the descriptor catalogue; re-run catgen");
+    }
+    let feats = cat.programs.iter().map(|p| cat.features(&p.root)).collect();
+    Env { cat, feats, runners }
+}
+
+fn arg_value(args: &[String], name: &str) -> Option<String> {
+    args.iter().position(|a| a == name).and_then(|i| args.get(i + 1).cloned())
+}
+
+fn rule_text(prop: Prop) -> &'static str {
+    match prop {
+        Prop::C01 => "each scenario = (catalogue program, generated payload with seeded source faults incl. duplicate keys / NaN / depth-128, leaf and callback faults, remove discipline); per scenario the keep-going run, EVERY stop position k as C^k B* and C^k B C*, one random answer script, and the same through the real serde_json source. A run is non-trivial when at least one report was made; distinct = distinct history fingerprints (hash of the full event log + outcome).",
+        Prop::C02 => "each scenario is run keep-going (C*) through the simulated source and, when representable, serde_json, and compared with the reference interpreter: report multiset (M-reports) and set of examined leaves (M-visits). Non-trivial = at least one report; distinct = distinct history fingerprints.",
+        Prop::C03 => "per scenario the keep-going run is recorded, then EVERY k in 0..=D (D = its number of decisions) is run as C^k B* (H-stop, H-prefix, H-handover-only) and C^k B C* (H-stop, H-prefix), plus B* (H-first), a random script, the serde_json source, and JsonError/QueryParamError swapped in as error party. Non-trivial = at least one Break consumed; distinct = distinct history fingerprints.",
+        Prop::C04 => "every event of every run is resolved against the document the source holds (H-loc): keep-going, B*, random script, up to six C^k B C* and the serde_json source; on the keep-going run M-handover demands a hand-over located exactly at each failing child. Non-trivial = at least one report; distinct = distinct history fingerprints.",
+        Prop::C06 => "std-container programs (no derived type): keep-going run vs reference interpreter for value with provenance tokens (M-value) and reports (M-reports), through both sources. Every run counts as non-trivial (success paths are the subject); distinct = distinct history fingerprints.",
+        Prop::C07 => "derived struct/enum programs (hand-written and generated: rename, rename_all at container and variant level, skipped fields in any position) on valid payloads extended with near-miss / spurious members in seeded delivery order; value with provenance tokens and found/missing/unknown key names vs reference interpreter, both remove disciplines. Every run non-trivial; distinct = distinct history fingerprints.",
+        Prop::C08 => "derived programs with default / default = expr / skip / missing_field_error / map / Option; payload members deleted, nulled or corrupted; missing-field reports, custom-function calls, defaults in the value, and never-visited skipped fields vs reference interpreter. Every run non-trivial; distinct = distinct history fingerprints.",
+        Prop::C09 => "derived programs with and without deny_unknown_fields; spurious and near-miss members injected; UnknownKey reports and custom-function calls vs reference interpreter; X-spurious compares the run with the run on the payload stripped of unread members. Every run non-trivial; distinct = distinct history fingerprints.",
+        Prop::C10 => "enum programs (tagged and unit-only); tag dropped / non-string / unknown / near-miss / moved / switched, both remove disciplines; value and reports vs reference interpreter. Every run non-trivial; distinct = distinct history fingerprints.",
+        Prop::C11 => "programs using from / try_from / map / validate / field-level error type; leaf and callback faults; keep-going run: calls, value and user-error reports equal the reference interpreter's; every stop position and a random script: no call outside the keep-going call set, none twice, every failed callback handed over at once, no user error or field-level error value dropped. Non-trivial = at least one callback call; distinct = distinct history fingerprints.",
+        Prop::C12 => "hostile mix: all source faults incl. duplicates, NaN/inf, NegativeInteger(n>=0), depth-128 and 10000-element payloads; every stop position, random scripts, both remove disciplines, both sources, all three error parties; catch_unwind around each call. Every run non-trivial; distinct = distinct history fingerprints.",
+        Prop::C14 => "failing payloads: JsonError and QueryParamError swapped in as the error party; message must equal that type's rendering of the first keep-going report (linkage) and is parsed back independently: path, quoted JSON value, names, alternatives, suggestion, lengths compared with the recorded report and the held document. Non-trivial = the built-in error type returned an error; distinct = distinct history fingerprints.",
+        Prop::C15 => "per scenario all joint member orders of all objects when there are at most 200 (else 64 seeded joint permutations), times both remove disciplines, keep-going answers; value and report multiset must equal those of the base order. Every run non-trivial; distinct = distinct history fingerprints.",
+    }
+}
+
+fn level(prop: Prop) -> &'static str {
+    match prop {
+        Prop::C03 => "fault_enumeration",
+        _ => "exploration",
+    }
+}
+
+struct Budget {
+    scenarios: u64,
+    max_seconds: f64,
+}
+
+fn budget(prop: Prop, tier: &str) -> Budget {
+    let quick = match prop {
+        Prop::C01 | Prop::C03 | Prop::C12 | Prop::C11 => 60_000,
+        Prop::C15 => 20_000,
+        _ => 120_000,
+    };
+    if tier == "thorough" {
+        Budget { scenarios: quick * 60, max_seconds: 900.0 }
+    } else {
+        Budget { scenarios: quick, max_seconds: 120.0 }
+    }
+}
+
+fn known_findings() -> Vec<serde_json::Value> {
+    let path = "/verif/known_findings.json";
+    match std::fs::read_to_string(path) {
+        Ok(s) => match serde_json::from_str::<serde_json::Value>(&s) {
+            Ok(j) => j.get("findings").and_then(|f| f.as_array()).cloned().unwrap_or_default(),
+            Err(e) => harness_error(&format!("cannot parse {path}: {e}")),
+        },
+        Err(_) => vec![],
+    }
+}
+
+/// a violation is a known finding when an entry with status "known" for this property names
+/// its rule and every `message_contains` fragment occurs in the violation message
+fn match_known<'a>(known: &'a [serde_json::Value], prop: Prop, f: &Found, scn: &Scenario) -> Option<&'a serde_json::Value> {
+    known.iter().find(|k| {
+        k.get("status").and_then(|s| s.as_str()) == Some("known")
+            && k.get("property").and_then(|s| s.as_str()) == Some(prop.id())
+            && k.get("rule").and_then(|s| s.as_str()) == Some(f.rule)
+            && k.get("message_contains").and_then(|m| m.as_array()).map(|m| m.iter().all(|x| x.as_str().map(|x| f.msg.contains(x)).unwrap_or(false))).unwrap_or(false)
+            && k.get("program_contains").and_then(|m| m.as_str()).map(|m| scn.program_name.contains(m)).unwrap_or(true)
+    })
+}
+
+fn write_replay(prop: Prop, scn: &Scenario, f: &Found, original: &Scenario, attempts: usize) -> String {
+    let dir = "/verif/replays";
+    let _ = std::fs::create_dir_all(dir);
+    let path = format!("{dir}/{}-seed{}-run{}-{}.json", prop.id(), scn.seed, scn.run_index, f.rule);
+    let j = serde_json::json!({
+        "property": prop.id(),
+        "rule": f.rule,
+        "message": f.msg,
+        "failing_run": f.label,
+        "expected_fingerprint": f.fingerprint.to_string(),
+        "scenario": scn.to_json(),
+        "history_of_failing_run": f.history,
+        "outcome_of_failing_run": f.outcome,
+        "minimisation": {"attempts": attempts, "original_document_nodes": original.doc.size(), "minimised_document_nodes": scn.doc.size(),
+                          "original_leaf_faults": original.leaf_faults.len(), "original_cb_faults": original.cb_faults.len()},
+        "catalogue": {"program_seed": protosim::generated::PROGRAM_SEED, "n_gen": protosim::generated::N_GEN,
+                       "generated_source": env!("PROTOSIM_GENERATED_PATH")},
+        "replay": format!("/verif/check replay {path}"),
+    });
+    std::fs::write(&path, serde_json::to_string_pretty(&j).unwrap()).unwrap_or_else(|e| harness_error(&format!("cannot write {path}: {e}")));
+    path
+}
+
+fn cmd_replay(env: &Env, file: &str) -> i32 {
+    let text = std::fs::read_to_string(file).unwrap_or_else(|e| harness_error(&format!("cannot read {file}: {e}")));
+    let j: serde_json::Value = serde_json::from_str(&text).unwrap_or_else(|e| harness_error(&format!("bad replay file: {e}")));
+    let prop = j.get("property").and_then(|p| p.as_str()).and_then(Prop::parse).unwrap_or_else(|| harness_error("replay file: property"));
+    let rule = j.get("rule").and_then(|p| p.as_str()).unwrap_or_else(|| harness_error("replay file: rule")).to_string();
+    let mut scn = Scenario::from_json(j.get("scenario").unwrap_or_else(|| harness_error("replay file: scenario")))
+        .unwrap_or_else(|| harness_error("replay file: cannot decode scenario"));
+    // the program is looked up by name so that a replay survives catalogue changes
+    match env.cat.programs.iter().position(|p| p.name == scn.program_name) {
+        Some(i) => scn.program = i,
+        None => harness_error("replay file: program not in this catalogue (was it found with a regenerated catalogue? rebuild with PROTOSIM_GENERATED set to the file named in the replay)"),
+    }
+    let want_fp = j.get("expected_fingerprint").and_then(|f| f.as_str()).unwrap_or("").to_string();
+    let mut st = Stats::default();
+    let found = check(prop, env, &scn, &mut st);
+    println!("replay: property={} rule={rule} program={} document={}", prop.id(), scn.program_name, scn.doc.render());
+    match found.iter().find(|f| f.rule == rule) {
+        Some(f) => {
+            println!("reproduced: {} [{}]", f.msg, f.label);
+            for h in &f.history {
+                println!("    {h}");
+            }
+            println!("    {}", f.outcome);
+            println!("history fingerprint {} (recorded {want_fp}): {}", f.fingerprint, if f.fingerprint.to_string() == want_fp { "identical" } else { "DIFFERENT" });
+            println!("VIOLATION property={} replay={file}", prop.id());
+            1
+        }
+        None => {
+            println!("not reproduced: the scenario passes rule {rule} on the current tree ({} other findings)", found.len());
+            0
+        }
+    }
+}
+
 fn main() {
-    let r = protosim::generated::runners();
-    println!("{} programs", r.len());
+    let args: Vec<String> = std::env::args().collect();
+    std::panic::set_hook(Box::new(|_| {}));
+    let env = build_env();
+    match args.get(1).map(|s| s.as_str()) {
+        Some("programs") => {
+            for (i, p) in env.cat.programs.iter().enumerate() {
+                println!("{i:4} {:40} {} [{}]", p.name, env.cat.rust_ty(&p.root), p.origin);
+            }
+        }
+        Some("replay") => {
+            let file = args.get(2).unwrap_or_else(|| harness_error("replay needs a file"));
+            std::process::exit(cmd_replay(&env, file));
+        }
+        Some("check") => {
+            let prop = args.get(2).and_then(|s| Prop::parse(s)).unwrap_or_else(|| harness_error("check needs a property id handled by engine A"));
+            std::process::exit(cmd_check(&env, prop, &args));
+        }
+        _ => harness_error("usage: protosim check <Cxx> [...] | replay <file> | programs"),
+    }
+}
+
+fn cmd_check(env: &Env, prop: Prop, args: &[String]) -> i32 {
+    let tier = arg_value(args, "--tier").or_else(|| std::env::var("VERIF_TIER").ok()).unwrap_or_else(|| "quick".to_string());
+    let tier = if tier == "thorough" { "thorough" } else { "quick" };
+    let seed: u64 = std::env::var("VERIF_SEED").ok().and_then(|s| s.parse().ok()).unwrap_or(1);
+    let b = budget(prop, tier);
+    let n_scenarios: u64 = arg_value(args, "--scenarios").and_then(|s| s.parse().ok()).unwrap_or(b.scenarios);
+    let max_seconds: f64 = arg_value(args, "--max-seconds").and_then(|s| s.parse().ok()).unwrap_or(b.max_seconds);
+    let threads: usize = arg_value(args, "--threads")
+        .and_then(|s| s.parse().ok())
+        .unwrap_or_else(|| std::thread::available_parallelism().map(|n| n.get()).unwrap_or(4).min(16));
+    let fp_log = arg_value(args, "--fp-log");
+    let evidence_path = arg_value(args, "--evidence").unwrap_or_else(|| format!("/verif/evidence/{}.json", prop.id()));
+    println!("VERIF_SEED={seed} property={} tier={tier} scenarios<={n_scenarios} threads={threads} catalogue_seed={} programs={}", prop.id(), protosim::generated::PROGRAM_SEED, env.cat.programs.len());
+
+    let profile = checks::profile(prop, env);
+    if profile.programs.is_empty() {
+        harness_error("no eligible program in the catalogue for this property");
+    }
+    let start = Instant::now();
+    let next = AtomicU64::new(0);
+    let stop = AtomicBool::new(false);
+    let total = Mutex::new(Stats::default());
+    let violations: Mutex<Vec<(u64, Scenario, Vec<Found>)>> = Mutex::new(vec![]);
+    let fps: Mutex<Vec<(u64, u64)>> = Mutex::new(vec![]);
+    let chunk: u64 = 64;
+    std::thread::scope(|s| {
+        for _ in 0..threads {
+            s.spawn(|| {
+                let mut st = Stats::default();
+                let mut local_fps: Vec<(u64, u64)> = vec![];
+                loop {
+                    if stop.load(Ordering::Relaxed) {
+                        break;
+                    }
+                    let from = next.fetch_add(chunk, Ordering::Relaxed);
+                    if from >= n_scenarios {
+                        break;
+                    }
+                    for i in from..(from + chunk).min(n_scenarios) {
+                        let scn = scenario::generate(&env.cat, &env.feats, &profile, simcore::rng::mix(seed, prop.tag(), 0), i);
+                        for (k, n) in scn.src_faults.as_pairs() {
+                            st.bump(&format!("{k}_injected"), n as u64);
+                        }
+                        st.bump("LEAF-FAIL_configured", scn.leaf_faults.len() as u64);
+                        st.bump("CB-FAIL_configured", scn.cb_faults.len() as u64);
+                        if scn.has_dup {
+                            st.bump("scenarios_with_duplicate_keys", 1);
+                        }
+                        if scn.has_exotic {
+                            st.bump("scenarios_with_exotic_values", 1);
+                        }
+                        if let Some(sp) = &scn.special {
+                            st.bump(&format!("probe_special_{sp}"), 1);
+                        }
+                        if scn.src_faults.total() == 0 && scn.leaf_faults.is_empty() && scn.cb_faults.is_empty() {
+                            st.bump("scenarios_without_any_fault", 1);
+                        }
+                        let runs_before = st.runs;
+                        let (found, scn_fp) = checks::check_fp(prop, env, &scn, &mut st);
+                        if fp_log.is_some() {
+                            local_fps.push((i, scn_fp));
+                        }
+                        if i < 3 {
+                            // a written-out sample: the scenario and its keep-going history
+                            let cfg = RunCfg {
+                                script: Script::AllC,
+                                leaf_faults: scn.leaf_faults.clone(),
+                                cb_faults: scn.cb_faults.clone(),
+                                swap_remove: scn.swap_remove,
+                                source: Source::Sim,
+                                err: ErrParty::Sim,
+                            };
+                            let r = run(&env.runners[scn.program], &scn.doc, &cfg);
+                            st.samples.push(serde_json::json!({
+                                "run_index": i,
+                                "program": scn.program_name,
+                                "target_type": env.cat.rust_ty(&env.cat.programs[scn.program].root),
+                                "delivered_document": scn.doc.render(),
+                                "leaf_faults": scn.leaf_faults.iter().map(|p| simcore::doc::path_str(p)).collect::<Vec<_>>(),
+                                "callback_faults": scn.cb_faults.len(),
+                                "remove_discipline": if scn.swap_remove {"swap"} else {"shift"},
+                                "random_answer_script": scn.script.to_json(),
+                                "simulated_calls_made_for_this_scenario": st.runs - runs_before,
+                                "keep_going_history": r.events.iter().take(16).map(|e| e.render()).collect::<Vec<_>>(),
+                                "keep_going_outcome": r.outcome.render(),
+                            }));
+                        }
+                        if !found.is_empty() {
+                            violations.lock().unwrap().push((i, scn, found));
+                        }
+                    }
+                    if start.elapsed().as_secs_f64() > max_seconds {
+                        stop.store(true, Ordering::Relaxed);
+                    }
+                }
+                total.lock().unwrap().merge(st);
+                fps.lock().unwrap().extend(local_fps);
+            });
+        }
+    });
+    let mut stats = total.into_inner().unwrap();
+    let wall = start.elapsed().as_secs_f64();
+    let mut violations = violations.into_inner().unwrap();
+    violations.sort_by_key(|v| v.0);
+    stats.samples.sort_by_key(|s| s.get("run_index").and_then(|x| x.as_u64()).unwrap_or(0));
+
+    if let Some(path) = fp_log {
+        let mut v = fps.into_inner().unwrap();
+        v.sort();
+        let mut f = std::fs::File::create(&path).unwrap_or_else(|e| harness_error(&format!("cannot write {path}: {e}")));
+        for (i, fp) in v {
+            let _ = writeln!(f, "{i} {fp:016x}");
+        }
+    }
+
+    // --- violations: minimise, write replay, verify in a fresh process, report ------------------
+    let known = known_findings();
+    let mut exit = 0;
+    let mut reported_rules: Vec<&'static str> = vec![];
+    let mut known_printed: Vec<String> = vec![];
+    let mut n_violation_lines = 0;
+    let n_violating_scenarios = violations.len();
+    for (_, scn, found) in &violations {
+        let f = &found[0];
+        if reported_rules.contains(&f.rule) && n_violation_lines + known_printed.len() >= 1 {
+            continue;
+        }
+        let (min_scn, attempts) = minimise(prop, env, scn, f.rule);
+        let mut st = Stats::default();
+        let refound = check(prop, env, &min_scn, &mut st);
+        let mf = match refound.iter().find(|x| x.rule == f.rule) {
+            Some(x) => x.clone(),
+            None => harness_error("minimised scenario no longer fails: nondeterminism in the harness"),
+        };
+        if let Some(k) = match_known(&known, prop, &mf, &min_scn) {
+            let what = k.get("what").and_then(|w| w.as_str()).unwrap_or("");
+            let line = format!("KNOWN-FINDING: property={} {what}", prop.id());
+            if !known_printed.contains(&line) {
+                println!("{line}");
+                known_printed.push(line);
+            }
+            reported_rules.push(f.rule);
+            continue;
+        }
+        reported_rules.push(f.rule);
+        let path = write_replay(prop, &min_scn, &mf, scn, attempts);
+        // the replay file must reproduce the violation in a fresh process
+        let exe = std::env::current_exe().unwrap_or_else(|e| harness_error(&format!("current_exe: {e}")));
+        let out = std::process::Command::new(exe).arg("replay").arg(&path).output();
+        match out {
+            Ok(o) if o.status.code() == Some(1) => {}
+            Ok(o) => harness_error(&format!("replay of {path} in a fresh process did not reproduce the violation (exit {:?})", o.status.code())),
+            Err(e) => harness_error(&format!("cannot spawn replay: {e}")),
+        }
+        println!("violation: rule={} program={} [{}]", mf.rule, min_scn.program_name, mf.label);
+        println!("  {}", mf.msg);
+        println!("  minimised document: {}", min_scn.doc.render());
+        println!("VIOLATION property={} replay={path}", prop.id());
+        n_violation_lines += 1;
+        exit = 1;
+        if n_violation_lines >= 3 {
+            break;
+        }
+    }
+
+    // --- evidence ---------------------------------------------------------------------------------
+    let mut counters: BTreeMap<String, u64> = stats.counters.clone();
+    counters.entry("LEAF-FAIL_fired".into()).or_insert(0);
+    let probes: BTreeMap<String, u64> = counters.iter().filter(|(k, _)| k.starts_with("probe_")).map(|(k, v)| (k.clone(), *v)).collect();
+    let faults: BTreeMap<String, u64> = counters
+        .iter()
+        .filter(|(k, _)| k.starts_with("SRC-") || k.starts_with("LEAF-") || k.starts_with("CB-") || k.starts_with("break_answers"))
+        .map(|(k, v)| (k.clone(), *v))
+        .collect();
+    let other: BTreeMap<String, u64> = counters
+        .iter()
+        .filter(|(k, _)| !(k.starts_with("probe_") || k.starts_with("SRC-") || k.starts_with("LEAF-") || k.starts_with("CB-") || k.starts_with("break_answers")))
+        .map(|(k, v)| (k.clone(), *v))
+        .collect();
+    let evidence = serde_json::json!({
+        "property_id": prop.id(),
+        "tier": tier,
+        "seed": seed,
+        "level": level(prop),
+        "coverage": {
+            "evaluations": stats.runs,
+            "distinct_nontrivial": stats.nontrivial_fingerprints.len(),
+            "rule": rule_text(prop),
+            "samples": stats.samples,
+            "scenarios": stats.scenarios,
+            "simulated_calls": stats.runs,
+            "simulated_calls_per_hour": if wall > 0.0 { (stats.runs as f64 / wall * 3600.0) as u64 } else { 0 },
+            "scenarios_per_hour": if wall > 0.0 { (stats.scenarios as f64 / wall * 3600.0) as u64 } else { 0 },
+            "seeds": {"VERIF_SEED": seed, "scenario_index_from": 0, "scenario_index_to_exclusive_upper_bound": n_scenarios, "scenarios_completed": stats.scenarios},
+            "simulated_time": {"unit": "history events (logical time; deserr has no clock)", "events": stats.events},
+            "distinct_histories": stats.fingerprints.len(),
+            "distinct_nontrivial_program_history_pairs": stats.nontrivial_program_fp.len(),
+            "programs_exercised": stats.programs_used.len(),
+            "programs_in_catalogue": env.cat.programs.len(),
+            "faults_and_answers": faults,
+            "reach_probes": probes,
+            "counters": other,
+            "catalogue": {"program_seed": protosim::generated::PROGRAM_SEED, "generated_types": protosim::generated::N_GEN, "types": env.cat.types.len(), "programs": env.cat.programs.len()},
+            "components": {
+                "real": ["deserr container impls (src/impls.rs)", "derive output (derive/src)", "serde_json bridge (src/serde_json.rs)", "serde_cs bridge", "JsonError", "QueryParamError"],
+                "simulated": ["value source (SimValue: delivery order, remove discipline, duplicates, exotic values)", "error type (SimErr/SimErrB: scripted Continue/Break answers)", "leaf deserializer (Probe)", "user callbacks (from/try_from/map/validate/missing_field_error/deny_unknown_fields)"]
+            },
+            "violating_scenarios": n_violating_scenarios,
+            "known_findings_matched": known_printed,
+            "exhaustive": false
+        },
+        "assumptions": [
+            "the error type keeps what it is handed (SimErr does, and records when a value dies unconsumed)",
+            "Sequence::len and Map::len are truthful (never faulted)",
+            "identifier shapes restricted to where camelCase is unambiguous",
+            "model rules only on duplicate-free, non-exotic payloads under keep-going answers"
+        ],
+        "wall_s": wall,
+        "violations": n_violation_lines
+    });
+    if let Some(dir) = std::path::Path::new(&evidence_path).parent() {
+        let _ = std::fs::create_dir_all(dir);
+    }
+    std::fs::write(&evidence_path, serde_json::to_string_pretty(&evidence).unwrap())
+        .unwrap_or_else(|e| harness_error(&format!("cannot write evidence {evidence_path}: {e}")));
+    println!(
+        "{}: {} scenarios, {} simulated calls, {} distinct histories ({} non-trivial), {:.1}s, {} violating scenarios",
+        prop.id(),
+        stats.scenarios,
+        stats.runs,
+        stats.fingerprints.len(),
+        stats.nontrivial_fingerprints.len(),
+        wall,
+        n_violating_scenarios
+    );
+    // a probe stuck at zero in the thorough tier is a harness problem, never a violation
+    if exit == 0 && stats.nontrivial_fingerprints.len() < 2 {
+        harness_error("fewer than two distinct non-trivial histories: the workload does not reach the property's subject");
+    }
+    exit
 }
